@@ -145,6 +145,10 @@ def translate_class(cls: ast.ClassDef, mixin_fields: bool) -> dict:
                         fields.append((name, fd[0], fd[1], fd[2]))
         elif isinstance(st, ast.FunctionDef):
             if st.name.endswith('_pivot'):
+                # a pivot must be recomputed on every access (plain custom_property): a cached one goes stale as soon
+                # as a neighbouring optional field appears or disappears
+                decs = [ast.unparse(d) for d in st.decorator_list]
+                need(decs == ['internal.custom_property'], f'{cls.name}.{st.name}: decorator must be internal.custom_property, found {decs}', st)
                 pivots[st.name] = chain(single_return(st))
             else:
                 methods[st.name] = st
